@@ -77,7 +77,8 @@ func vOpen(t testing.TB, prop string) *vOut {
 func (o *vOut) Line(format string, args ...any) {
 	o.mu.Lock()
 	defer o.mu.Unlock()
-	fmt.Fprintf(o.lw, o.prop+" "+format+"\n", args...)
+	// the driver dispatches on the property id: an output set named "C07proc" still speaks for C07
+	fmt.Fprintf(o.lw, o.prop[:3]+" "+format+"\n", args...)
 	o.nline++
 }
 
